@@ -149,7 +149,7 @@ func cmdCheck(args []string) int {
 	// lemmas serving the property
 	lem := P.lemmaObligations(*prop)
 	obls = append(obls, lem...)
-	workers := 4
+	workers := 3
 	solveAll(P, obls, timeout, all, workers)
 
 	known, fixedList := loadKnown(filepath.Join(*verif, "known_findings.txt"))
@@ -165,6 +165,8 @@ func cmdCheck(args []string) int {
 	var order []string
 	solverMs := int64(0)
 	bySolver := map[string]int{}
+	coverFeasible := map[string]bool{}
+	coverSeen := map[string]*Obligation{}
 	for _, o := range obls {
 		g := groups[o.Name]
 		if g == nil {
@@ -175,7 +177,15 @@ func cmdCheck(args []string) int {
 		g.obls = append(g.obls, o)
 		ok := o.Result.Verdict == "unsat"
 		if o.Cover {
-			ok = o.Result.Verdict == "sat" || o.Result.Verdict == "unknown"
+			ok = o.Result.Verdict != "unsat"
+			if strings.Contains(o.Name, ".cover.return@") {
+				// judged per return position below
+				if ok {
+					coverFeasible[o.Name] = true
+				}
+				coverSeen[o.Name] = o
+				continue
+			}
 		}
 		if !ok {
 			g.failed = append(g.failed, o)
@@ -184,6 +194,34 @@ func cmdCheck(args []string) int {
 		}
 		solverMs += o.Result.Ms
 	}
+	// dead returns: compare per function with the committed baseline count of returns that are
+	// unreachable by design (defensive error returns); more dead returns than that is a vacuity alarm
+	expectedDead := map[string]int{}
+	if data, err := os.ReadFile(filepath.Join(*verif, "expected_unreachable.txt")); err == nil {
+		for _, ln := range strings.Split(string(data), "\n") {
+			f := strings.Fields(ln)
+			if len(f) == 2 && !strings.HasPrefix(ln, "#") {
+				n, _ := strconv.Atoi(f[1])
+				expectedDead[f[0]] = n
+			}
+		}
+	}
+	var deadReturns, unexpectedDead []string
+	deadPerFunc := map[string][]string{}
+	for name, o := range coverSeen {
+		if !coverFeasible[name] {
+			deadReturns = append(deadReturns, name)
+			deadPerFunc[o.Func] = append(deadPerFunc[o.Func], name)
+		}
+	}
+	for fn, names := range deadPerFunc {
+		if len(names) > expectedDead[strings.ReplaceAll(fn, " ", "")] {
+			sort.Strings(names)
+			unexpectedDead = append(unexpectedDead, fn+": "+strings.Join(names, ","))
+		}
+	}
+	sort.Strings(deadReturns)
+	sort.Strings(unexpectedDead)
 	violations := 0
 	knownHit := 0
 	total, discharged := 0, 0
@@ -246,6 +284,16 @@ func cmdCheck(args []string) int {
 		}
 		fmt.Printf("VIOLATION property=%s replay=%s obligation=%s%s\n", *prop, rp, name, suffix)
 	}
+	for _, name := range unexpectedDead {
+		violations++
+		exit = 1
+		os.MkdirAll(replayDir, 0755)
+		rp := filepath.Join(replayDir, sanitize(name)+".vacuity.json")
+		js, _ := json.MarshalIndent(map[string]interface{}{"property": *prop, "obligation": name, "reason": "vacuity guard: no feasible path reaches this return under the contract's assumptions (contradictory contract/invariant, or dead code)",
+			"note": "returns that are unreachable by design are listed in /verif/expected_unreachable.txt"}, "", " ")
+		os.WriteFile(rp, js, 0644)
+		fmt.Printf("VIOLATION property=%s replay=%s obligation=%s no-failing-input-found\n", *prop, rp, name)
+	}
 	for _, bf := range bindFails {
 		violations++
 		exit = 1
@@ -268,7 +316,17 @@ func cmdCheck(args []string) int {
 			for fn, m := range mins[*prop] {
 				if perFunc[fn] < m {
 					alreadyBind := false
-					for _, bf := range bindFails {
+					for _, name := range unexpectedDead {
+		violations++
+		exit = 1
+		os.MkdirAll(replayDir, 0755)
+		rp := filepath.Join(replayDir, sanitize(name)+".vacuity.json")
+		js, _ := json.MarshalIndent(map[string]interface{}{"property": *prop, "obligation": name, "reason": "vacuity guard: no feasible path reaches this return under the contract's assumptions (contradictory contract/invariant, or dead code)",
+			"note": "returns that are unreachable by design are listed in /verif/expected_unreachable.txt"}, "", " ")
+		os.WriteFile(rp, js, 0644)
+		fmt.Printf("VIOLATION property=%s replay=%s obligation=%s no-failing-input-found\n", *prop, rp, name)
+	}
+	for _, bf := range bindFails {
 						if strings.HasPrefix(bf, fn+":") {
 							alreadyBind = true
 						}
@@ -328,6 +386,7 @@ func cmdCheck(args []string) int {
 		"solver_ms_total":          solverMs,
 		"known_findings_hit":       knownHit,
 		"out_of_subset":            bindFails,
+		"unreachable_returns":      deadReturns,
 		"samples":                  samples,
 		"explanation":              "each obligation is one SMT query (negated goal) generated from /repo's current SSA for one path segment of a function under contract; 'obligations' counts queries excluding known findings",
 	}
@@ -403,3 +462,4 @@ func modelInputs(model string) map[string]string {
 	}
 	return res
 }
+
